@@ -1,6 +1,6 @@
 From Coq Require Import ZArith List Bool QArith Qround.
 Import ListNotations.
-From GV Require Import Common.PyInt gen.Gen_array C10.Model C10.Lemmas C10.Discharge.
+From GV Require Import Common.PyInt gen.Gen_array C10.Model C10.Lemmas C10.Discharge C10.GenEquiv.
 From GV Require C20.Model C20.OdometerProof.
 Open Scope Z_scope.
 
@@ -157,3 +157,102 @@ Theorem chunking_irrelevant_translated_chunk_len :
         = R (map a (filter (fun c => mask_fun m c && filt (a c)) (lanep (view_pos shape []) (red_axis (length shape) ai) [k]))).
 Proof. exact Discharge.chunking_irrelevant_translated_chunk_len. Qed.
 Print Assumptions chunking_irrelevant_translated_chunk_len.
+
+(* ================= the TRANSLATED Data.compute_statistic =================
+   gen_compute_statistic is coq/gen/Gen_stat.v (regenerated statement by statement from glue/core/data.py on every run) with its
+   opaque numpy operations instantiated on the model's arrays (Model.v, Section GenInst).  chunk_cond is the code's own test for the
+   chunk loop, shortcut its test for the SliceSubsetState shortcut; pv / entries turn an optional view into the Python value / its entries. *)
+
+(* Equivalence: outside the chunk loop and the shortcut the translated function returns what the hand model's stat_view_e
+   returns: the same shape and the same value at every index of that shape. *)
+Theorem translated_equals_hand_model :
+  forall (A res : Type) (R : list A -> res) (nan zero : res) (isfin ispos : A -> bool) shape (a : idx -> A)
+         rf fuel (s : selection) (ax : pyaxis) (fin pos : bool) (o : option (list ventry)) ncm,
+    Forall (fun n => 0 <= n) shape ->
+    chunk_cond shape s ax (pv o) ncm = false ->
+    shortcut s ax (pv o) = false ->
+    let M := stat_view_e A res R nan shape a (filt_of A isfin ispos fin pos) (mask_of shape s) (entries o)
+                         (red_of_axes (zlen (sel_shape (view_sel shape (entries o)))) (axes_of ax)) in
+    exists r, gen_compute_statistic A res R nan zero isfin ispos shape a (S rf) fuel s ax fin pos (pv o) ncm = Ok r /\
+              fst r = fst M /\ forall o', in_box (fst r) o' -> snd r o' = snd M o'.
+Proof. exact GenEquiv.translated_equals_hand_model. Qed.
+Print Assumptions translated_equals_hand_model.
+
+(* The translated function (any view with integers and slices of any step, any selection, axis None / int / tuple, finite and
+   positive flags) has the documented shape and every element is R applied to exactly the selected, filtered values of the
+   corresponding lane of the viewed array, in row-major order. *)
+Theorem translated_statistic_equals_definition :
+  forall (A res : Type) (R : list A -> res) (nan zero : res), R [] = nan ->
+  forall (isfin ispos : A -> bool) shape (a : idx -> A) rf fuel (s : selection) (ax : pyaxis) (fin pos : bool)
+         (o : option (list ventry)) ncm,
+    Forall (fun n => 0 <= n) shape ->
+    chunk_cond shape s ax (pv o) ncm = false ->
+    shortcut s ax (pv o) = false ->
+    let sels := view_sel shape (entries o) in
+    let vsh := sel_shape sels in
+    let red := red_of_axes (zlen vsh) (axes_of ax) in
+    exists r, gen_compute_statistic A res R nan zero isfin ispos shape a (S rf) fuel s ax fin pos (pv o) ncm = Ok r /\
+      fst r = out_shape vsh red /\
+      forall o', in_box (out_shape vsh red) o' ->
+        snd r o' = R (map a (filter (fun c => sel_fun shape s c && filt_of A isfin ispos fin pos (a c))
+                                    (map (to_under_e sels) (lane0 vsh red o')))).
+Proof. exact GenEquiv.translated_statistic_equals_definition. Qed.
+Print Assumptions translated_statistic_equals_definition.
+
+(* The SliceSubsetState shortcut of the translated function. *)
+Theorem translated_slice_shortcut :
+  forall (A res : Type) (R : list A -> res) (nan zero : res), R [] = nan ->
+  forall (isfin ispos : A -> bool) shape (a : idx -> A) rf fuel (sl : list slice) (fin pos : bool) ncm,
+    Forall (fun n => 0 <= n) shape -> Forall Lemmas5.pos_step sl ->
+    exists r, gen_compute_statistic A res R nan zero isfin ispos shape a (S rf) fuel (SelSlices sl) AxNone fin pos PVNone ncm = Ok r /\
+      fst r = [] /\
+      snd r [] = R (map a (filter (fun c => slices_mask shape sl c && filt_of A isfin ispos fin pos (a c))
+                                  (lanep (view_pos shape []) (red_of_axes (zlen shape) None) []))).
+Proof. exact GenEquiv.translated_slice_shortcut. Qed.
+Print Assumptions translated_slice_shortcut.
+
+(* Chunking is irrelevant for the translated function as a whole: when its own chunk condition holds (view None, the axis tuple L is
+   every axis except ai, more elements than n_chunk_max, not a SliceSubsetState) it computes the chunk shape, runs the translated
+   iterate_chunks, calls itself on every chunk and assembles a result whose element k is the unchunked textbook value. *)
+Theorem translated_chunking_irrelevant :
+  forall (A res : Type) (R : list A -> res) (nan zero : res), R [] = nan ->
+  forall (isfin ispos : A -> bool) shape (a : idx -> A) (ai : nat) (L : list Z) (s : selection) (fin pos : bool) rf fuel ncm,
+    Forall (fun n => 0 < n) shape -> (ai < length shape)%nat ->
+    (forall i, 0 <= i < zlen shape -> existsb (Z.eqb i) L = negb (i =? Z.of_nat ai)) ->
+    g_is_slice_state s = false ->
+    0 < zlen L -> zlen L = zlen shape - 1 ->
+    zprod shape > ncm ->
+    (C20.Model.fuel_for shape <= fuel)%nat ->
+    exists r,
+      gen_compute_statistic A res R nan zero isfin ispos shape a (S (S rf)) fuel s (AxTuple L) fin pos PVNone ncm = Ok r /\
+      fst r = [nth ai shape 0] /\
+      forall k, 0 <= k < nth ai shape 0 ->
+        snd r [k] = R (map a (filter (fun c => sel_fun shape s c && filt_of A isfin ispos fin pos (a c))
+                                     (lanep (view_pos shape []) (red_axis (length shape) ai) [k]))).
+Proof. exact GenEquiv.translated_chunking_irrelevant. Qed.
+Print Assumptions translated_chunking_irrelevant.
+
+(* ================= the TRANSLATED Data.compute_histogram =================
+   gen_hist1 is the 1-d call of coq/gen/Gen_stat.v compute_histogram (regenerated statement by statement from glue/core/data.py) on lists
+   of points (value, image under log10, selected, weight), with a selection, weights and log = [lg] (Model.v, Section HistInst). *)
+
+(* Equivalence: for every range with distinct ends (in log mode: distinct images of the ends) the translated function returns exactly what
+   the hand model histogram1 returns (zeros / error / the bins and the per-edge weights). *)
+Theorem translated_histogram_equals_hand_model :
+  forall lg (lo hi llo lhi : Q) n (pts : list (option Q * option Q * bool * Q)),
+    ~ (lo == hi)%Q -> (lg = true -> ~ (llo == lhi)%Q) ->
+    gen_hist1 lg lo hi llo lhi n pts = Ok (histogram1 lg lo hi llo lhi n pts).
+Proof. exact GenEquiv.translated_histogram_equals_hand_model. Qed.
+Print Assumptions translated_histogram_equals_hand_model.
+
+(* Whenever the translated function returns bins they sum to the weight of the selected finite values inside the closed range of the raw
+   values (log: binning of the images under any monotone map L). *)
+Theorem translated_histogram_code_total :
+  forall (L : Q -> Q), (forall a b : Q, (0 < a)%Q -> (a <= b)%Q -> (L a <= L b)%Q) ->
+  forall lg (lo hi : Q) n pts l e, (0 < n)%Z ->
+    images_ok L pts ->
+    ~ (lo == hi)%Q -> (lg = true -> ~ (L lo == L hi)%Q) ->
+    gen_hist1 lg lo hi (L lo) (L hi) n pts = Ok (HBins l e) ->
+    (qsum l == in_range_total lo hi (raw pts))%Q.
+Proof. exact GenEquiv.translated_histogram_code_total. Qed.
+Print Assumptions translated_histogram_code_total.
